@@ -91,8 +91,8 @@ PROPS["C08"] = Prop(
 PARAMS["C08"] = {"rule": "generate, Default, Clone, map x4 receiver forms, fold x4 forms, zip x10 form pairs, each for drop-tracked and plain (no-drop) element types on either side (selecting the needs_drop branches), N in {0..8,16,17,33}; the ordered call log (call index, arguments) and the result are compared. Non-trivial = N > 0."}
 
 PROPS["C09"] = Prop(
-    "C09", ["GA.Props.C09"],
-    [Engine("seq", scen.seq, sig=lambda l: l.split()[0] + "/" + l.split()[-1], miri=80)],
+    "C09", ["GA.Props.C09", "GA.Props.BodySeq"],
+    [Engine("seq", scen.seq, sig=lambda l: l.split()[0] + "/" + l.split()[-1], miri=80, body_view=True)],
     trusted=[KERNEL, TRANSLATOR, HARNESS,
              "modelled, not verified: ptr::read/ptr::write/ptr::copy/slice::swap semantics; the result types' lengths (Add1/Sub1/Diff/Sum) are typenum's; layout facts come from C01"],
     assumptions=["element values are abstracted to ids; blocks are addressed in whole elements (C01 gives stride = size_of::<T>())",
@@ -133,9 +133,9 @@ PROPS["C11"] = Prop(
 PARAMS["C11"] = {"rule": "flatten / unflatten, owned, & and &mut, for every (N, M) in 0..=6 squared (N >= 1 for unflatten) plus (1,1024), (1024,1), (16,64); 5 element kinds incl. zero-sized and drop-tracked; element order, address and extent of the regrouped value/view."}
 
 PROPS["C03"] = Prop(
-    "C03", ["GA.Props.C03", "GA.Props.Body", "GA.Props.BodyCollect"],
+    "C03", ["GA.Props.C03", "GA.Props.Body", "GA.Props.BodyCollect", "GA.Props.BodySeq"],
     [Engine("hist", scen.hist, sig=lambda l: "len%d" % min(40, 5 * (l.count(";") // 5)), miri=12),
-     Engine("seq", scen.seq, sig=lambda l: l.split()[0] + "/" + l.split()[-1]),
+     Engine("seq", scen.seq, sig=lambda l: l.split()[0] + "/" + l.split()[-1], body_view=True),
      Engine("regroup", lambda t, s, p: [x for x in scen.regroup(t, s, p) if "kind=tr" in x], sig=lambda l: l.split()[0]),
      Engine("own", scen.own_c08, sig=own_sig, body_view=True),
      Engine("heap", lambda t, s, p: [x for x in scen.heap_c15(t, s, p) if "kind=tr" in x or "kind=z" in x], sig=lambda l: l.split()[0])],
